@@ -1049,6 +1049,40 @@ class World(object):
         x = fxf.from_bin(op['bits'], signed=s, n_word=w, n_frac=f)
         self.finish_new(st, x)
 
+    def op_frombin_cont(self, st):
+        """from_bin() given a caller-owned CONTAINER of binary literals (a list, or a NumPy array of dtype
+        object or str): the function form builds a new object, the method form rewrites an existing one.
+        Either way the container comes back unchanged (C20)."""
+        op = st.op
+        if not self.containers:
+            raise Skip('no container')
+        c = op['c'] % len(self.containers)
+        cont = self.containers[c][0]
+        ok = (isinstance(cont, np.ndarray) and cont.dtype.kind in 'OU') or \
+            (isinstance(cont, (list, tuple)) and not V.is_numeric_container(cont))
+        if not ok:
+            raise Skip('not a container of literals')
+        st.extra['container'] = c
+        if op.get('via') == 'method':
+            d = self.ref(op['slot'])
+            self._plan_inplace(st, d)
+            st.store = Store('dest', route='from_bin', judge_flags=False, judge_cb=False)
+            yield
+            self.bump('from_bin_of_container')
+            st.ret = self.obj(d).from_bin(cont)
+            self.fresh_buffer(d)
+        else:
+            self.room()
+            s, w, f = self.fmt_args(op.get('fmt'))
+            st.kind = 'construct'
+            st.pure = True
+            st.store = Store('new', route='from_bin_fn', fmt_req=(s, w, f), judge_cb=False, judge_flags=False)
+            st.extra['tpl'] = self.template
+            yield
+            self.bump('from_bin_of_container')
+            x = fxf.from_bin(cont, signed=s, n_word=w, n_frac=f)
+            self.finish_new(st, x)
+
     # ================================================================== ops: derive
     def op_deepcopy(self, st):
         op = st.op
@@ -1801,10 +1835,15 @@ class World(object):
         vals = (sh, [Q.unscale(c, o.n_frac) for c in flat])
         st.store = Store('dest', vals=vals, raw=True, route='set_val_raw', modes_from=('slot', d),
                          fmt_req=fmt)
-        st.redo = lambda t, src: t.set_val(V.carrier(op['val']), raw=True)
+        kw = {}
+        if op.get('vdtype') in ('int', 'float', 'int64', 'float64'):
+            # the documented vdtype= keyword of a raw write ("data type to overwrite Fxp vdtype")
+            kw['vdtype'] = {'int': int, 'float': float, 'int64': np.int64, 'float64': np.float64}[op['vdtype']]
+            self.bump('raw_write_with_vdtype')
+        st.redo = lambda t, src: t.set_val(V.carrier(op['val']), raw=True, **kw)
         st.extra['val'] = op['val']
         yield
-        st.ret = self.obj(d).set_val(V.carrier(op['val']), raw=True)
+        st.ret = self.obj(d).set_val(V.carrier(op['val']), raw=True, **kw)
         self.fresh_buffer(d)
 
     def op_setitem(self, st):
